@@ -136,7 +136,12 @@ func c11Parties(e *env) {
 			return
 		}
 		w.Header().Set("Content-Type", "application/json")
-		json.NewEncoder(w).Encode(map[string]any{"digest": d, "allow": d[1] >= '4', "count": 5})
+		// first / second: the same value in one of two places, depending on a client header (the other one is empty)
+		first, second := "team", ""
+		if req.Header.Get("X-Extra") == "y" {
+			first, second = "", "team"
+		}
+		json.NewEncoder(w).Encode(map[string]any{"digest": d, "allow": d[1] >= '4', "count": 5, "first": first, "second": second})
 	}
 	e.net.HandleFunc("pdp", pdp)
 	e.net.HandleFunc("pre", pdp) // an uncached step in front of the mechanism under test talks to this host
@@ -292,8 +297,12 @@ func c11Build(s *simcore.Source) c11Scenario {
 			sc.usesExtra, sc.extraHow, sc.viaOutputs = true, "reaches the URL through .Outputs of an earlier step", true
 			sc.describe += "outputs-in-url "
 			sc.variation = "outputs-in-url"
-		case 3: // an endpoint header depends on the output of an earlier, uncached step
-			headersYAML += "            X-O: \"{{ .Outputs.pre.digest }}\"\n"
+		case 3: // endpoint headers depend on the output of an earlier, uncached step; one of them renders empty
+			if s.Draw(2, "two-output-headers") == 1 {
+				headersYAML += "            X-O1: \"{{ .Outputs.pre.first }}\"\n            X-O2: \"{{ .Outputs.pre.second }}\"\n"
+			} else {
+				headersYAML += "            X-O: \"{{ .Outputs.pre.digest }}\"\n"
+			}
 			pre = "    - id: pre\n      type: generic\n      config:\n        endpoint:\n          url: http://pre/pre\n          method: GET\n        forward_headers: [ \"X-Extra\" ]\n        cache_ttl: 0s\n"
 			preStep = "    - contextualizer: pre\n"
 			sc.usesExtra, sc.extraHow, sc.viaOutputs = true, "reaches an endpoint header through .Outputs of an earlier step", true
